@@ -245,20 +245,7 @@ def run(ctx):
     fails, known, checked, nontrivial, skipped = navlib.oracle(camp, lambda d, m, k, o: (lambda c: c if c in known_ids else None)(classify(d, m, k, o)))
     for cid in sorted(known):
         ctx.known("%s: %s" % (cid, CLASS_DOC[cid]))
-    reported = 0
-    for (i, m, pi, a, e) in sorted(fails, key=lambda f: len(camp.items[f[0]][0].text))[:3]:
-        d, pts = camp.items[i]
-        ctx.violation(dict(kind="oracle", property=PID, text=d.text, method=m, line=pts[pi][0], col=pts[pi][1],
-                           token=(d.tokens[pts[pi][2]] if pts[pi][2] is not None else None), observed=a, expected=e,
-                           what="textDocument/%s differs from the occurrences bound to the same declaration" % m,
-                           failures_in_this_run=len(fails)))
-        reported += 1
-    for (i, m, pi, seen) in camp.crashes[:2]:
-        d, pts = camp.items[i]
-        ctx.violation(dict(kind="oracle", property=PID, text=d.text, method=m, line=pts[pi][0], col=pts[pi][1], observed="no response",
-                           expected=(navlib.expected(d, m, pts[pi][2]) if d.kind == "valid" else "a response"),
-                           transcripts=seen, what="the server does not answer textDocument/%s (three fresh processes): the handler panicked" % m))
-        reported += 1
+    reported = navlib.report_oracle(ctx, PID, camp, fails, "textDocument/%s differs from the occurrences bound to the same declaration")
 
     # ---- oracle (b): rename round trips
     t0 = time.time()
